@@ -8,8 +8,11 @@ package main
 import (
 	"fmt"
 	"html/template"
+	"io"
+	"strings"
 
 	"go.pennock.tech/tabular"
+	"go.pennock.tech/tabular/auto"
 	"go.pennock.tech/tabular/csv"
 	thtml "go.pennock.tech/tabular/html"
 	tjson "go.pennock.tech/tabular/json"
@@ -240,6 +243,78 @@ func runC10FromCallback(x *X) {
 		x.Clause("C10.same_bytes")
 		if a != b || (ea != nil) != (eb != nil) {
 			x.Fail("C10.same_bytes", []string{"refreshing_render_callback", "format:" + r.name}, "%s.Render(t) gives (err %v)\n%s\nbut %s.Wrap(t).Render() on an identically built table gives (err %v)\n%s", r.name, eb, b, r.name, ea, a)
+		}
+	})
+}
+
+// ---- C10: overlapping html renders of tables that came from different creation paths
+func runC10Overlapping(x *X) {
+	type creator struct {
+		name string
+		mk   func() (tabular.Table, func(w io.Writer) error)
+	}
+	fill := func(t tabular.Table, tag string) {
+		t.AddHeaders(tag+"-h1", tag+"-h2")
+		t.AddRowItems(tag+"-a", tag+"<b>")
+		t.AddSeparator()
+		t.AddRowItems(tag + "-c")
+	}
+	creators := func(tag string) []creator {
+		return []creator{
+			{"html.New()", func() (tabular.Table, func(io.Writer) error) { h := thtml.New(); fill(h, tag); return h, h.RenderTo }},
+			{"html.Wrap(tabular.New())", func() (tabular.Table, func(io.Writer) error) {
+				t := tabular.New()
+				fill(t, tag)
+				h := thtml.Wrap(t)
+				return t, h.RenderTo
+			}},
+			{"auto.New(html)", func() (tabular.Table, func(io.Writer) error) {
+				a := auto.New("html")
+				fill(a, tag)
+				return a, a.RenderTo
+			}},
+			{"auto.RenderTo(tabular.New(), html)", func() (tabular.Table, func(io.Writer) error) {
+				t := tabular.New()
+				fill(t, tag)
+				return t, func(w io.Writer) error { return auto.RenderTo(t, w, "html") }
+			}},
+		}
+	}
+	x.Explore("overlapping-html-renders", ExploreOpts{ShardDepth: 2, Bound: "4 creation paths for the outer x 4 for the inner html table (different content): the outer render's writer renders the inner table before accepting Write #1 | #3 | every Write; both outputs must equal the canonical route's"}, func(c *Chooser) {
+		oc, ic := c.Choose(4), c.Choose(4)
+		at := []int{1, 3, 0}[c.Choose(3)]
+		canon := func(tag string) string {
+			t := tabular.New()
+			fill(t, tag)
+			s, _ := thtml.Wrap(t).Render()
+			return s
+		}
+		_, outerTo := creators("outer")[oc].mk()
+		_, innerTo := creators("inner")[ic].mk()
+		c.Logf("outer html table via %s, its writer renders an inner html table made via %s before accepting Write #%d (0 = every)", creators("o")[oc].name, creators("i")[ic].name, at)
+		x.Transition(1)
+		x.Nontrivial(fmt.Sprint(oc, ic, at))
+		w := &c14NestWriter{at: at, inner: func() (string, error) {
+			var sb strings.Builder
+			err := innerTo(&sb)
+			return sb.String(), err
+		}}
+		var err error
+		if p, val, site := Safe(func() { err = outerTo(w) }); p {
+			x.FailSite("C10.no_panic", []string{"overlapping_html_renders", "panic"}, site, "panicked: %v", val)
+			return
+		}
+		tags := []string{"overlapping_html_renders", "outer:" + creators("o")[oc].name, "inner:" + creators("i")[ic].name}
+		x.Clause("C10.same_bytes")
+		if err != nil || w.buf.String() != canon("outer") {
+			x.Fail("C10.same_bytes", tags, "the outer table rendered (err %v)\n%s\nbut tabular.New()+html.Wrap(t).Render() of the same content gives\n%s", err, w.buf.String(), canon("outer"))
+			return
+		}
+		for _, o := range w.outs {
+			if o != canon("inner") {
+				x.Fail("C10.same_bytes", append(tags, "inner_render"), "the inner table rendered\n%s\nbut the canonical route gives\n%s", o, canon("inner"))
+				return
+			}
 		}
 	})
 }
